@@ -45,6 +45,9 @@ Clauses(e) ==
  \cup (IF val /\ ~(f.reprSame /\ f.jsonSame /\ f.pySame) THEN {"C08:serialization-changed"} ELSE {})
  \cup (IF val /\ ~(f.eqFreshBefore => f.eqFreshAfter) THEN {"C08:no-longer-equals-fresh-copy"} ELSE {})
  \cup (IF val /\ ~SameOutcome(e.out, e.again) THEN {"C08:not-repeatable"} ELSE {})
+ (* nothing but validation calls came before: the outcome must be that of untouched objects *)
+ \cup (IF val /\ e.pure /\ ~SameOutcome(e.out, e.freshspec)
+       THEN {"C08:outcome-depends-on-earlier-validations"} ELSE {})
  \cup (IF val /\ ~SameOutcome(e.out, e.fresh) THEN {"C13:differs-from-fresh-element"} ELSE {})
  \cup (IF val /\ ~SameOutcome(e.out, e.freshspec)
        THEN {"C13:differs-from-fresh-element-of-the-specified-configuration"} ELSE {})
